@@ -165,6 +165,23 @@ macro_rules! field_probe {
                 cx.eq("MODULUS_BIT_SIZE", &|| $tag.to_string(), <$T as PrimeField>::MODULUS_BIT_SIZE as u64, p.bits());
                 let _ = BI::from(1u64).is_zero();
             }
+            // folds over nothing and over one element, all four forms
+            {
+                let none: Vec<$T> = Vec::new();
+                let d0 = || format!("{} empty iterator", $tag);
+                cx.eq("Sum of nothing", &d0, to(&<$T as Sum<$T>>::sum(none.clone().into_iter())), n(0));
+                cx.eq("Sum<&> of nothing", &d0, to(&<$T as Sum<&$T>>::sum(none.iter())), n(0));
+                cx.eq("Product of nothing", &d0, to(&<$T as Product<$T>>::product(none.clone().into_iter())), n(1) % &p);
+                cx.eq("Product<&> of nothing", &d0, to(&<$T as Product<&$T>>::product(none.iter())), n(1) % &p);
+                for v in vals.iter().take(6) {
+                    let one = vec![of(v)];
+                    let d1 = || format!("{} single element {}", $tag, v);
+                    cx.eq("Sum of one", &d1, to(&<$T as Sum<$T>>::sum(one.clone().into_iter())), v.clone());
+                    cx.eq("Sum<&> of one", &d1, to(&<$T as Sum<&$T>>::sum(one.iter())), v.clone());
+                    cx.eq("Product of one", &d1, to(&<$T as Product<$T>>::product(one.clone().into_iter())), v.clone());
+                    cx.eq("Product<&> of one", &d1, to(&<$T as Product<&$T>>::product(one.iter())), v.clone());
+                }
+            }
             // arithmetic (C10)
             let nv = vals.len();
             for i in 0..nv {
